@@ -150,7 +150,7 @@ Definition same_vis (a b : core) : Prop := outp a = outp b /\ nwarn a = nwarn b 
 
 Lemma plain_dead_out c raw k : outp (plain_step false c raw k) = outp c /\
   tab (plain_step false c raw k) = tab c /\ nwarn (plain_step false c raw k) = nwarn c.
-Proof. destruct k; cbn; auto. Qed.
+Proof. destruct k; cbn [plain_step]; auto. Qed.
 
 Lemma tick_out c : outp (tick c) = outp c /\ nwarn (tick c) = nwarn c /\ nerr (tick c) = nerr c.
 Proof. cbn; auto. Qed.
@@ -263,7 +263,12 @@ Proof. intros H. unfold step. cbn [snd fst stack cor mkp plain_step]. rewrite H.
 
 (* errors only ever accumulate: a reported error is never retracted by later lines *)
 Lemma nerr_plain live c raw k : nerr c <= nerr (plain_step live c raw k).
-Proof. destruct k, live; cbn; try lia; destruct fn; cbn; lia. Qed.
+Proof.
+  destruct k; destruct live; cbn [plain_step];
+    try (unfold fail_line, emit, add_err, add_warn, with_tab; cbn [nerr]; lia).
+  - destruct (expand (tab c) raw) as [e over]. destruct over; unfold emit, add_err; cbn [nerr]; lia.
+  - destruct fn; unfold with_tab, add_warn; cbn [nerr]; lia.
+Qed.
 Lemma nerr_step p rk : nerr (cor p) <= nerr (cor (step p rk)).
 Proof.
   destruct rk as [raw k]. unfold step. cbn [snd fst].
